@@ -153,7 +153,18 @@ fn random_etc(rng: &mut Rng, w: usize, h: usize, alpha: bool) -> Vec<u8> {
     let mut out = Vec::new();
     for _ in 0..blocks {
         if alpha {
-            out.extend(rng.bytes(8));
+            // structured alpha words as well as random ones: fully transparent / fully opaque blocks and
+            // blocks with a single non-zero nibble are what real textures contain
+            match rng.below(8) {
+                0 => out.extend([0u8; 8]),
+                1 => out.extend([0xFFu8; 8]),
+                2 => {
+                    let mut a = [0u8; 8];
+                    a[rng.below(8)] = if rng.chance(1, 2) { 0x0F } else { 0xF0 };
+                    out.extend(a);
+                }
+                _ => out.extend(rng.bytes(8)),
+            }
         }
         let mut b = rng.bytes(8);
         match rng.below(8) {
